@@ -13,6 +13,9 @@ os.environ["VERIF_COVER"] = "1"
 from vlib import build
 c, cxx, hdr = build.source_files()
 objdir = os.path.join(build.BUILD, "obj-" + build.tree_hash(c + cxx + hdr))
+import fcntl
+_lock = open(os.path.join(build.BUILD, "cover.lock"), "w")
+fcntl.flock(_lock, fcntl.LOCK_EX)      # one measurement at a time: the .gcda files are shared
 for f in glob.glob(os.path.join(objdir, "*.gcda")):
     os.unlink(f)
 r = subprocess.run([os.path.join(VERIF, "check"), pid, "--tier", tier], env=env, stdout=subprocess.PIPE, stderr=subprocess.STDOUT)
